@@ -42,6 +42,7 @@ type BindCase struct {
 	AnyPort   bool       `json:"anyport,omitempty"`   // client-udp
 	Legit     int        `json:"legit,omitempty"`     // legitimate packets sent around the intrusions
 	Timeout   bool       `json:"timeout,omitempty"`   // also: intruder traffic alone must not keep the session / client alive
+	Wildcard  bool       `json:"wildcard,omitempty"`  // the server listens on every address (dual-stack sockets: IPv4 peers appear as IPv4-mapped addresses)
 	Intruders []Intruder `json:"intruders,omitempty"` //
 	Transport string     `json:"transport,omitempty"` // control: tcp udp
 	State     string     `json:"state,omitempty"`     // control: setup play record paused
@@ -168,7 +169,7 @@ func sendIntrusions(ins []Intruder, negotiated, target [2]int, pt uint8, ssrc ui
 func runBindServerUDP(c BindCase) (*bindStats, error) {
 	st := &bindStats{}
 	desc := SimpleDesc([]int{1, 1})
-	w, err := StartWorld(WorldCfg{UDP: true, Desc: desc, ReadTimeout: c19Timeout, WriteTimeout: c19Timeout, IdleTimeout: 2 * c19Timeout})
+	w, err := StartWorld(WorldCfg{UDP: true, Desc: desc, ReadTimeout: c19Timeout, WriteTimeout: c19Timeout, IdleTimeout: 2 * c19Timeout, Wildcard: c.Wildcard})
 	if err != nil {
 		return st, nil
 	}
@@ -491,7 +492,7 @@ func dialRawFrom(host, localIP string) (*rawClient, error) {
 func runBindControl(c BindCase) (*bindStats, error) {
 	st := &bindStats{}
 	desc := SimpleDesc([]int{1, 1})
-	w, err := StartWorld(WorldCfg{UDP: true, Desc: desc, ReadTimeout: 5 * time.Second, WriteTimeout: 5 * time.Second, IdleTimeout: 20 * time.Second})
+	w, err := StartWorld(WorldCfg{UDP: true, Desc: desc, ReadTimeout: 5 * time.Second, WriteTimeout: 5 * time.Second, IdleTimeout: 20 * time.Second, Wildcard: c.Wildcard})
 	if err != nil {
 		return st, nil
 	}
@@ -586,6 +587,33 @@ func runBindControl(c BindCase) (*bindStats, error) {
 		if a.From == "sameip" {
 			ip = "127.0.0.1"
 		}
+		if a.From == "otherip-ws" || a.From == "otherip-http" {
+			// the same theft through a tunnelled control connection: a library client dialling from the other address,
+			// with the stolen id put into its requests
+			cl := NewClient(w.Scheme, w.Host, nil)
+			cl.Tunnel = gortsplib.TunnelWebSocket
+			if a.From == "otherip-http" {
+				cl.Tunnel = gortsplib.TunnelHTTP
+			}
+			d := net.Dialer{Timeout: 15 * time.Second, LocalAddr: &net.TCPAddr{IP: net.ParseIP(ip)}}
+			cl.DialContext = d.DialContext
+			cl.OnRequest = func(req *base.Request) { req.Header["Session"] = base.HeaderValue{sess} }
+			if err := cl.Start(); err != nil {
+				continue
+			}
+			_, oerr := cl.Options(u)
+			cl.Close()
+			st.Attacks++
+			if oerr == nil {
+				return st, fmt.Errorf("attack %d: OPTIONS carrying the session id of a %s session in state %s, sent from %s through a %s tunnel, was accepted",
+					ai, c.Transport, c.State, ip, strings.TrimPrefix(a.From, "otherip-"))
+			}
+			if strings.Contains(oerr.Error(), "timed out") {
+				continue // nothing learnt
+			}
+			st.Refused++
+			continue
+		}
 		ar, err := dialRawFrom(w.Host, ip)
 		if err != nil {
 			continue
@@ -628,7 +656,7 @@ func runBindControl(c BindCase) (*bindStats, error) {
 	}
 	// the session is untouched
 	for _, a := range c.Attacks {
-		if a.From != "otherip" && !streamingTCP {
+		if !strings.HasPrefix(a.From, "otherip") && !streamingTCP {
 			return st, nil // a same-address request on a session that is not pinned may legitimately act on it: nothing more to judge
 		}
 	}
